@@ -5,7 +5,7 @@ use std::cell::RefCell;
 thread_local! {
     static DROPS: RefCell<Vec<String>> = RefCell::new(Vec::new());
     static MUTE: RefCell<bool> = RefCell::new(false);
-    pub static CLONE_BOMB: RefCell<Option<u64>> = RefCell::new(None);
+    pub static CLONE_BOMB: RefCell<Option<(&'static str, u64)>> = RefCell::new(None);
 }
 
 pub fn log_drop(s: String) {
@@ -87,7 +87,7 @@ macro_rules! droppable {
         impl Drop for $name { fn drop(&mut self) { log_drop(format!("{}{}", $tag, self.id())); } }
         impl Clone for $name {
             fn clone(&self) -> Self {
-                if CLONE_BOMB.with(|b| *b.borrow() == Some(self.id())) { panic!("clone bomb {}", self.id()); }
+                if CLONE_BOMB.with(|b| *b.borrow() == Some(($tag, self.id()))) { panic!("clone bomb {}", self.id()); }
                 Self::mk(self.id() + 1000000)
             }
         }
